@@ -22,14 +22,21 @@ Open Scope Z_scope.
 
 Inductive nvariant := NFixed | NOrig.
 
+(* the calls on the destination: those of TsMem.dop and the two precisions, which the loader stores directly
+   (vdip->vdi_fprecision = v, vdip->vdi_dprecision = v) *)
+Inductive ndop := NCall (o : dop) | NFprec (v : Z) | NDprec (v : Z).
+
 Record nmem := mkN {
   n_text : option block_id; n_tarr : carray N; n_size : nat;      (* nss_text, nss_text_size *)
   n_fld : option block_id; n_farr : carray Z; n_count : nat;      (* nss_fields, nss_field_count *)
-  n_z0 : option block_id; n_z0n : Z }.                            (* z0_vector and its number of entries *)
-Definition nm_empty : nmem := mkN None empty_arr 0 None empty_arr 0 None 0.
-Definition nset_text m p a n := mkN p a n (n_fld m) (n_farr m) (n_count m) (n_z0 m) (n_z0n m).
-Definition nset_fld m p a n := mkN (n_text m) (n_tarr m) (n_size m) p a n (n_z0 m) (n_z0n m).
-Definition nset_z0 m p n := mkN (n_text m) (n_tarr m) (n_size m) (n_fld m) (n_farr m) (n_count m) p n.
+  n_z0 : option block_id; n_z0n : Z;                              (* z0_vector and its number of entries *)
+  n_log : list ndop }.                                            (* calls on the destination so far, reversed *)
+Definition nm_empty : nmem := mkN None empty_arr 0 None empty_arr 0 None 0 [].
+Definition nset_text m p a n := mkN p a n (n_fld m) (n_farr m) (n_count m) (n_z0 m) (n_z0n m) (n_log m).
+Definition nset_fld m p a n := mkN (n_text m) (n_tarr m) (n_size m) p a n (n_z0 m) (n_z0n m) (n_log m).
+Definition nset_z0 m p n := mkN (n_text m) (n_tarr m) (n_size m) (n_fld m) (n_farr m) (n_count m) p n (n_log m).
+Definition nlog m (evs : list ndop) := mkN (n_text m) (n_tarr m) (n_size m) (n_fld m) (n_farr m) (n_count m) (n_z0 m) (n_z0n m)
+                                          (rev evs ++ n_log m).
 
 (* ---- scan_line --------------------------------------------------------------------------------------- *)
 Definition add_char_n (m : nmem) (c : N) : M (option nmem) :=
@@ -202,6 +209,48 @@ Definition data_mem (x : nctx) (d : ndata) (line : list (list N)) (m : nmem) : M
     (if x_fz0 x then read_strs_n m line 1 (2 * Z.to_nat (x_ports x)) ;;; touch (n_z0 m) else ret tt) ;;;
     read_strs_n m line (Z.to_nat (x_first x)) (2 * Z.to_nat (x_cells x)).
 
+(* ---- the calls on the destination -------------------------------------------------------------------------------- *)
+Definition nptype_code (t : ptype) : Z :=
+  match t with PUNDEF => 0 | PS => 1 | PT => 2 | PU => 3 | PZ => 4 | PY => 5 | PH => 6 | PG => 7 | PA => 8 | PB => 9 | PZIN => 10 end.
+
+(* a header record the loader accepts: vnadata_set_format, the two precisions (stored directly) *)
+Definition header_events (k : nkey) (fields : list (list N)) : list ndop :=
+  match k with
+  | NKParameters => match fields with
+                    | [_; a] => match set_format a with Some _ => [NCall DFormat] | None => [] end
+                    | _ => []
+                    end
+  | NKFprecision => match nnint fields with Some z => if 1000 <? z then [] else [NFprec z] | None => [] end
+  | NKDprecision => match nnint fields with Some z => if 1000 <? z then [] else [NDprec z] | None => [] end
+  | _ => []
+  end.
+(* "Set-up the output matrix": vnadata_init, then the '#:z0' vector *)
+Definition init_events (x : nctx) : list ndop :=
+  map NCall (
+  let zin := match e_par (x_best x) with PZIN => true | _ => false end in
+  DInit (nptype_code (e_par (x_best x))) (if zin then 1 else x_ports x) (x_ports x) (x_nfreq x) ::
+  match x_z0 x with Some _ => [DZ0Vec (Z.to_nat (z0_entries (x_ports x)))] | None => [] end).
+(* one data line: vnadata_set_frequency, vnadata_set_fz0_vector *)
+Definition data_events (x : nctx) (d : ndata) (line : list (list N)) : list ndop :=
+  map NCall (
+  if (nd_left d <=? 0) || negb (Z.of_nat (length line) =? x_nfields x) then []
+  else match line with
+       | f0 :: rest =>
+           match field_double f0 with
+           | None => []
+           | Some _ =>
+               let i := x_nfreq x - nd_left d in
+               DSetFreq i ::
+               (if x_fz0 x then
+                  match take_pairs (Z.to_nat (x_ports x)) rest with
+                  | Some _ => [DFz0Vec i (Z.to_nat (z0_entries (x_ports x)))]
+                  | None => []
+                  end
+                else [])
+           end
+       | [] => []
+       end).
+
 Inductive nmst := NRun (s : nst) | NNoMem.
 
 Definition nmstep (v : nvariant) (st : nmst * nmem) (line : list (list N)) : M (nmst * nmem) :=
@@ -218,14 +267,20 @@ Definition nmstep (v : nvariant) (st : nmst * nmem) (line : list (list N)) : M (
               match record_of line with
               | RecKey k fields =>
                   o2 <- header_mem h k line m2 ;;
-                  match o2 with None => ret (NNoMem, m2) | Some m3 => ret (NRun (nstep s line), m3) end
+                  match o2 with
+                  | None => ret (NNoMem, m2)
+                  | Some m3 => ret (NRun (nstep s line),
+                                    match nstep s line with NErr _ => m3 | _ => nlog m3 (header_events k fields) end)
+                  end
               | RecData fields =>
                   match post_header h with
                   | inr x =>
-                      o2 <- post_header_mem x m2 ;;
+                      let m2' := nlog m2 (init_events x) in
+                      o2 <- post_header_mem x m2' ;;
                       match o2 with
-                      | None => ret (NNoMem, m2)
-                      | Some m3 => data_mem x (mknd (x_nfreq x) [] [] []) line m3 ;;; ret (NRun (nstep s line), m3)
+                      | None => ret (NNoMem, m2')
+                      | Some m3 => data_mem x (mknd (x_nfreq x) [] [] []) line m3 ;;;
+                                   ret (NRun (nstep s line), nlog m3 (data_events x (mknd (x_nfreq x) [] [] []) line))
                       end
                   | inl _ => ret (NRun (nstep s line), m2)
                   end
@@ -233,7 +288,8 @@ Definition nmstep (v : nvariant) (st : nmst * nmem) (line : list (list N)) : M (
               end
           | NData x d =>
               (match record_of line with RecData _ => data_mem x d line m2 | _ => ret tt end) ;;;
-              ret (NRun (nstep s line), m2)
+              ret (NRun (nstep s line),
+                   match record_of line with RecData _ => nlog m2 (data_events x d line) | _ => m2 end)
           | NErr _ => ret (NRun s, m2)
           end
   end.
@@ -249,8 +305,9 @@ Definition nfinish_mem (st : nmst * nmem) : M (nmst * nmem) :=
   match fst st with
   | NRun (NHeader h) =>
       match post_header h with
-      | inr x => o <- post_header_mem x (snd st) ;;
-                 match o with None => ret (NNoMem, snd st) | Some m => ret (fst st, m) end
+      | inr x => let m0 := nlog (snd st) (init_events x) in
+                 o <- post_header_mem x m0 ;;
+                 match o with None => ret (NNoMem, m0) | Some m => ret (fst st, m) end
       | inl _ => ret st
       end
   | _ => ret st
@@ -265,11 +322,12 @@ Definition nresult_of (st : nmst) : nmresult :=
   | NNoMem => NMENOMEM
   | NRun s => match nfinish s with NOk _ => NMOk | NError c => NMErr c end
   end.
-Record nreport := mknrep { nr_z0 : option Z; nr_fld : option Z; nr_text : option Z }.
+Record nreport := mknrep { nr_z0 : option Z; nr_fld : option Z; nr_text : option Z; nr_calls : list ndop }.
 Definition nreport_of (m : nmem) : nreport :=
   mknrep (match n_z0 m with Some _ => Some (16 * n_z0n m) | None => None end)
          (match n_fld m with Some _ => Some (4 * calloc (n_farr m)) | None => None end)
-         (match n_text m with Some _ => Some (calloc (n_tarr m)) | None => None end).
+         (match n_text m with Some _ => Some (calloc (n_tarr m)) | None => None end)
+         (rev (n_log m)).
 
 Definition mem_load_npd (v : nvariant) (bytes : list N) : M (nmresult * nreport) :=
   st <- nmrun v (npd_lines bytes) (NRun (NHeader nh0), nm_empty) ;;
